@@ -41,6 +41,13 @@ def main():
         rc0, out0 = sh(f"/venv/bin/python {src / 'demo.py'}", env=env, cwd=str(wt))
         res["demo_clean_rc"] = rc0
         rc, out = sh(f"git -C {wt} apply {src / 'patch.diff'}")
+        rebased = None
+        if rc != 0:  # /repo moved on (fix: commits) since the change was written: try a 3-way merge of the patch
+            rc, out = sh(f"git -C {wt} apply --3way {src / 'patch.diff'}")
+            if rc == 0:
+                sh(f"git -C {wt} reset -q")
+                _, rebased = sh(f"git -C {wt} diff")
+                res["rebased_on"] = sh("git -C /repo rev-parse --short HEAD")[1].strip()
         res["apply_rc"] = rc
         if rc != 0:
             res["apply_out"] = out[-500:]
@@ -84,6 +91,10 @@ def main():
         if src.resolve() != dst.resolve():
             shutil.copy(src / "patch.diff", dst / "patch.diff")
             shutil.copy(src / "demo.py", dst / "demo.py")
+        if rebased:
+            if not (dst / "patch.orig.diff").exists():
+                shutil.copy(dst / "patch.diff", dst / "patch.orig.diff")
+            (dst / "patch.diff").write_text(rebased + "\n")
         meta = json.loads((src / "meta.json").read_text()) if (src / "meta.json").exists() else {}
         meta["property"] = prop
         meta["verification"] = {k: res[k] for k in res if k not in ("source",)}
